@@ -159,7 +159,8 @@ Inductive scan_row := RowValues (v : vec) | RowNaN.
 
 Record plumb_facts := mkPlumb {
   pf_sim_ok : bool;     (* simulate_to_steady_state / _handle_simulation_results / get_result as modelled *)
-  pf_worker_ok : bool   (* _steady_state_worker / Result.default / Simulation.default(NaN) as modelled *)
+  pf_worker_ok : bool;  (* _steady_state_worker / Result.default / Simulation.default(NaN) as modelled *)
+  pf_default_tol : Q    (* default of Simulator.simulate_to_steady_state(tolerance=...), which the worker uses *)
 }.
 
 (** Simulator state relevant here: [variables] and [_errors] *)
@@ -197,10 +198,10 @@ Definition worker_row (r : sim_result) : scan_row :=
   | RSimulation l => match rev l with (_, v) :: _ => RowValues v | [] => RowNaN end
   end.
 
-Definition steady_state_row (P : plumb_facts) (F : ss_facts) (tol : Q) (rel : bool) (y0 : vec) (y : nat -> vec)
+Definition steady_state_row (P : plumb_facts) (F : ss_facts) (rel : bool) (y0 : vec) (y : nat -> vec)
   : option scan_row :=
   if pf_sim_ok P && pf_worker_ok P
-  then match sim_to_steady sim_fresh (ss_run F tol rel y0 y) with
+  then match sim_to_steady sim_fresh (ss_run F (pf_default_tol P) rel y0 y) with
        | Some s => Some (worker_row (get_result s))
        | None => None
        end
